@@ -29,11 +29,12 @@ GATE = "none"
 class Ctx:
     """Per-thread-of-control observation record (one per task, one for the main thread)."""
 
-    __slots__ = ("reads", "toks", "gated", "obs", "draws", "states", "watch")
+    __slots__ = ("reads", "toks", "gates", "gated", "obs", "draws", "states", "watch")
 
     def __init__(self):
         self.reads = 0
         self.toks = 0
+        self.gates = 0  # places where a context switch could happen (read_token, or a scanner read not preceded by one)
         self.gated = False
         self.obs = None
         self.draws = []
@@ -288,6 +289,7 @@ def install():
             if env is not None:
                 ctx = cur_ctx()
                 ctx.toks += 1
+                ctx.gates += 1
                 ctx.gated = True
                 k = env.kernel
                 if k is not None:
@@ -305,6 +307,7 @@ def install():
                 ctx = cur_ctx()
                 ctx.reads += 1
                 if not ctx.gated:
+                    ctx.gates += 1
                     k = env.kernel
                     if k is not None:
                         k.yield_point("read")
